@@ -388,88 +388,6 @@ theorem tblFinal_merge
 
 end tables
 
-/-! ### the closed form of `deserialize` (the first half of `graph_core`; "no value_info names an
-output" is not needed for it) -/
-
-structure GraphWF0 (inits : List TensorP) (inputs outputs vis : List ValueInfoP) (outs : List String) :
-    Prop where
-  nodupNames : (scopeNames (inputs.map (·.name)) (inits.map (·.name)) outs).Nodup
-  nonempty : ∀ n ∈ scopeNames (inputs.map (·.name)) (inits.map (·.name)) outs, n ≠ ""
-  nodupInit : (inits.map (·.name)).Nodup
-  wfIn : inputs.all wfVI = true
-  wfOut : outputs.all wfVI = true
-  wfVis : vis.all wfVI = true
-  nodupOut : (outputs.map (·.name)).Nodup
-  wfInit : inits.all (fun t => wfTensor t && validDType t.dataType) = true
-
-theorem GraphWF.to0 {inits : List TensorP} {inputs outputs vis : List ValueInfoP} {quant : List AnnotP}
-    {outs : List String} (hw : GraphWF inits inputs outputs vis quant outs) :
-    GraphWF0 inits inputs outputs vis outs :=
-  ⟨hw.nodupNames, hw.nonempty, hw.nodupInit, hw.wfIn, hw.wfOut, hw.wfVis, hw.nodupOut, hw.wfInit⟩
-
-theorem graph_des_closed (outer : Scopes) (name doc : String) (nodes : List NodeP)
-    (inits : List TensorP) (inputs outputs vis : List ValueInfoP) (quant : List AnnotP)
-    (metadata : List Entry)
-    (hw : GraphWF0 inits inputs outputs vis (nodeOutNames nodes)) (xs : List IRNode)
-    (hD1 : desNodes outer vis quant nodes (tblPre inits inputs vis quant (nodeOutNames nodes))
-      = .ok (xs, tblPre inits inputs vis quant (nodeOutNames nodes))) :
-    ∃ idxs, desGraph outer (.mk name doc nodes inits inputs outputs vis quant metadata) =
-        .ok (IRGraph.mk (tblFinal inits inputs outputs vis quant (nodeOutNames nodes))
-          (List.range inputs.length) (dedupNat idxs) xs
-          (outputs.map (gOutT (scopeNames (inputs.map (·.name)) (inits.map (·.name)) (nodeOutNames nodes))))
-          name doc [] (dictOfEntries metadata)) ∧
-      idxs.map some = inits.map (fun p => lookupLast
-        (inputs.map (·.name) ++ (inits.map (·.name)).filter (fun n => !(inputs.map (·.name)).contains n))
-        p.name) := by
-  have hNpre := tableNames_tblPre (inits := inits) (inputs := inputs) (vis := vis) (quant := quant)
-    (outs := nodeOutNames nodes)
-  have hnd := hw.nodupNames
-  simp only [scopeNames] at hnd
-  rw [List.nodup_append] at hnd
-  obtain ⟨hndAB, hndC, hdisC⟩ := hnd
-  rw [List.nodup_append] at hndAB
-  obtain ⟨hndA, _hndB, _hdisB⟩ := hndAB
-  have hA := desGraphInputs_eq quant inputs hw.wfIn
-  have hwfT : inits.all wfTensor = true := by
-    rw [List.all_eq_true]
-    intro p hp
-    have := List.all_eq_true.1 hw.wfInit p hp
-    simp only [Bool.and_eq_true] at this
-    exact this.1
-  have hT := desTensors_eq inits hwfT
-  have hne : ∀ p ∈ inits, p.name ≠ "" := by
-    intro p hp
-    apply hw.nonempty
-    by_cases hin : p.name ∈ inputs.map (·.name)
-    · exact mem_scopeNames.2 (Or.inl hin)
-    · exact mem_scopeNames.2 (Or.inr (Or.inl ⟨List.mem_map_of_mem hp, hin⟩))
-  obtain ⟨idxs, hB, hidx⟩ := desInitializers_spec vis quant hw.wfVis inits (inputs.map (inputValT quant))
-    hw.wfInit hne hw.nodupInit (by rw [tableNames_inputVals]; exact hndA)
-  rw [tableNames_inputVals] at hB hidx
-  have hNB : tableNames ((inputs.map (inputValT quant)).map (constFrom inits)
-      ++ (newInits (inputs.map (·.name)) inits).map (initValT vis quant))
-      = inputs.map (·.name) ++ (inits.map (·.name)).filter (fun n => !(inputs.map (·.name)).contains n) := by
-    simp only [tableNames, List.map_append, List.map_map]
-    congr 1
-    · apply List.map_congr_left; intro vi _; simp
-    · rw [← newInits_names]
-      apply List.map_congr_left; intro p _; simp
-  have hC := declareAll_spec vis quant hw.wfVis nodes
-    ((inputs.map (inputValT quant)).map (constFrom inits)
-      ++ (newInits (inputs.map (·.name)) inits).map (initValT vis quant))
-    (by intro n hn hm; rw [hNB] at hm; exact hdisC n hm n hn rfl) hndC
-  have hE := desGraphOutputs_spec outputs (tblPre inits inputs vis quant (nodeOutNames nodes))
-    hw.wfOut hw.nodupOut (by rw [hNpre]; exact hw.nodupNames)
-  rw [hNpre] at hE
-  refine ⟨idxs, ?_, by rw [hidx, hNB]⟩
-  simp only [desGraph, hA, hT, hB, hC, bind, Except.bind]
-  have : (inputs.map (inputValT quant)).map (constFrom inits)
-      ++ (newInits (inputs.map (·.name)) inits).map (initValT vis quant)
-      ++ (nodeOutNames nodes).map (newValueT vis quant)
-      = tblPre inits inputs vis quant (nodeOutNames nodes) := rfl
-  simp only [this, hD1, hE]
-  rfl
-
 theorem map_some_inj {α : Type} : ∀ {a b : List α}, a.map some = b.map some → a = b
   | [], [], _ => rfl
   | [], _ :: _, h => by cases h
